@@ -14,7 +14,7 @@ CLAIMED = {
              "followed by marking) and total (completion loop dominates SetBlockOrder), that SetBlockOrder applies it to all parallel "
              "tables and both reference kinds, that pruning deletes only unreferenced non-root blocks, restarts after each deletion "
              "and never reads a stale root index, and that the sort/prune call tree writes nothing but sort state, child arrays, "
-             "reference indices, header tables and bounds.",
+             "reference indices, header tables and bounds. The position counter of a sort is only ever incremented (found and fixed this way: SetShapeOrder started it at the root's block number).",
         note="SortGraph's value-level child filters (duplicate shape names, F10), root-first placement and idempotence of sorting are "
              "not decided; depends on C05"),
     "C05": dict(
@@ -98,7 +98,7 @@ CLAIMED = {
         text="Decides the structural clauses of vertex deletion: every member array that a class's Sync sizes to the vertex count is "
              "erased by its notifyVerticesDelete (or a base implementation it calls); every override calls its non-empty base exactly "
              "once on every path; DeleteVertsForShape reaches every class in scope through a dispatching receiver type; each counter "
-             "is re-derived from an erased array after the erase. Known finding: BSTriShape particle arrays are not erased.",
+             "is re-derived from an erased array after the erase. Known finding: BSTriShape particle arrays are not erased. An array the reader sizes only under a data flag is indexed by the deletion code only under that flag or its own size (found and fixed this way: strip points of a NiTriStrips stored without points).",
         note="order preservation inside EraseVectorIndices, triangle re-indexing, segment bookkeeping order contracts and partition "
              "re-fitting are value-level and not decided"),
     "C10": dict(
@@ -121,7 +121,7 @@ CLAIMED = {
              "cloning; CopyFrom assigns every NifFile member; no block class has user-written copy operations; Clone_impl of every "
              "registered class is the CRTP instantiation for that class; no mutable statics. Given C++ value semantics this "
              "implies the copy shares no state with its source, for all 304 block types. Byte-equality of the copy's save is "
-             "inherited from clone wiring + C01 and not separately decided.",
+             "inherited from clone wiring + C01 and not separately decided. Nothing CopyFrom reaches after cloning writes a block member other than the re-linked caches, and no header method that goes through the block-vector pointer runs while the copied header still points at the source.",
         note="trusted: clang front end and record layouts, extractor, value semantics of std containers (vector/string/array/set/"
              "map deep-copy their elements)"),
     "C12": dict(
@@ -140,7 +140,7 @@ CLAIMED = {
              "field the setter writes, for both storage kinds. It is a necessary condition of 'what is written is what is read "
              "back' and nothing more: bit-exactness, half-float tolerance, triangle order, count preservation and save/reload "
              "equality quantify over runtime arrays and are NOT decided by this check. R13.2: in every version region the clamp that "
-             "Create applies to a counter equals the capacity of the integer Sync writes it through (Create drops nothing the format holds).",
+             "Create applies to a counter equals the capacity of the integer Sync writes it through (Create drops nothing the format holds). R13.4/R13.5: sibling Create calls of one function forward the same inputs, and a Create that re-derives the vertex count touches every array its reader sizes to it (found and fixed this way: vertexColors; known finding: BSTriShape particle arrays).",
         note="only the storage-field agreement and clamp/capacity clauses are decided; every numeric clause of C13 is outside static reach"),
     "C14": dict(
         cat="other", ref="DESIGN.md §5 C14",
@@ -170,16 +170,19 @@ CLAIMED = {
         text="Decides the clause 'no code divides by a field a truncated file leaves at zero': every integer / and % whose divisor is "
              "not a non-zero constant must be dominated by a non-zero test of that divisor (all functions, all template "
              "instantiations). This is the site class where truncation crashes were actually found (SIGFPE in NiSkinPartition, "
-             "fixed). Allocation sizes and value-level PrepareData logic are not decided.",
+             "fixed). Allocation sizes and value-level PrepareData logic are not decided. One-sided size checks of parallel vector parameters on the load/save path are reported (R16.7).",
         note="guards are recognised as dataflow facts (if/early return/&&/?:); arithmetic reasoning about non-zero-ness beyond a "
              "direct test is not attempted"),
     "C19": dict(
         cat="other", ref="DESIGN.md §5 C19",
-        technique="static analysis: sibling agreement of the texture-slot walkers (slot coverage and guard-set inclusion after expanding locals to their defining lookups), must-call dataflow on the load path",
+        technique="static analysis: sibling agreement of the texture-slot walkers (slot coverage and guard-set inclusion after expanding locals to their defining lookups), must-call dataflow on the load path, alternation analysis of run-collapsing regex literals",
         text="Thin partial: every texture string slot GetTexturePathRefs can reach is cleaned by TrimTexturePaths under a guard set that "
              "is a subset of the accessor's, and the clean-up runs on every completing path of PrepareData, which Load's success path "
-             "reaches. Found and fixed this way: effect-shader texture paths were never cleaned. The canonical form, idempotence and "
-             "termination of the regex pipeline are string semantics and NOT decided.",
+             "reaches. Found and fixed this way: effect-shader texture paths were never cleaned. One clause of the string pipeline is "
+             "decided language-theoretically from the pattern literal: a run-collapsing regex_replace with a one-character "
+             "replacement leaves no doubled separator iff its pattern is a single class containing that character (found and fixed "
+             "this way: mixed '/\\' runs). The rest of the canonical form, idempotence and termination of the regex pipeline are "
+             "string semantics and NOT decided.",
         note="what TrimTexturePaths computes for a given string is outside static reach"),
 }
 
